@@ -80,6 +80,8 @@ var strLens = []int{0, 0, 1, 1, 2, 3, 5, 8, 13, 126, 127, 128, 129, 255, 256, 16
 type GenOpt struct {
 	Dict    int  // LowCardinality: number of distinct values to aim for (0 = small random)
 	BigStr  bool // allow strings around the 16 KiB boundary
+	HugeStr bool // allow (rarely) strings of 64 KiB .. 1 MiB
+	TailStr int  // >0: make the last string of the last row this long (block ends inside a big value)
 	MaxElem int  // max elements of an inner array / map (default 4)
 }
 
@@ -134,6 +136,9 @@ func GenLeaf(rng *rand.Rand, t *ref.Type, o GenOpt) ref.Val {
 		n := strLens[rng.Intn(len(strLens))]
 		if n > 300 && (!o.BigStr || rng.Intn(4) != 0) {
 			n = rng.Intn(20)
+		}
+		if o.HugeStr && rng.Intn(12) == 0 {
+			n = []int{65535, 65536, 65537, 70000, 131072, 1 << 20}[rng.Intn(6)]
 		}
 		return ref.Leaf(randBytes(rng, n))
 	case "Bool":
@@ -299,3 +304,32 @@ var RowCounts = []int{0, 1, 2, 3, 7, 8, 9, 50, 127, 128, 129, 1000}
 
 // Revisions on both sides of every block-affecting feature plus the defaults.
 var BlockRevisions = []int{51902, 51903, 54453, 54454, 54460, 54475}
+
+// InflateLastString replaces the last String/JSON leaf reachable in v (walking last elements)
+// by an n-byte string; reports whether one was found.
+func InflateLastString(v *ref.Val, t *ref.Type, n int, rng *rand.Rand) bool {
+	if v.Null {
+		return false
+	}
+	switch t.Base {
+	case "String", "JSON":
+		v.B = randBytes(rng, n)
+		return true
+	case "Array":
+		if len(v.L) == 0 {
+			return false
+		}
+		return InflateLastString(&v.L[len(v.L)-1], t.Args[0], n, rng)
+	case "Nullable":
+		return InflateLastString(v, t.Args[0], n, rng)
+	case "Map":
+		if len(v.L) == 0 {
+			return false
+		}
+		p := &v.L[len(v.L)-1]
+		return InflateLastString(&p.L[1], t.Args[1], n, rng)
+	case "Tuple":
+		return InflateLastString(&v.L[len(v.L)-1], t.Args[len(t.Args)-1], n, rng)
+	}
+	return false
+}
